@@ -641,6 +641,17 @@ pub fn run(tier: &str) -> i32 {
             }
         }
     }
+    // one table of 720 rows per footprint (the full 3 x 3 x 4 value grid of the three columns, repeated):
+    // evaluators that only engage from ~100 rows on (vectorised filters of the DISTINCT / ORDER BY path)
+    // are not reached by the 0-3 row tables above
+    for cols in by_cols.keys() {
+        let mut t: Vec<[V; 3]> = vec![];
+        for i in 0..720usize {
+            // (+1: the first row holds no NULL — the vectorised path infers column types from row 0)
+            t.push([INTS[(i + 1) % INTS.len()].clone(), INTS[(i / INTS.len() + 1) % INTS.len()].clone(), STRS[(i / (INTS.len() * INTS.len()) + 1) % STRS.len()].clone()]);
+        }
+        work.push(Work { cols: cols.clone(), t, xi: 0 });
+    }
     work.sort_by_key(|w| w.t.len());
 
     if std::env::var("VERIF_C06_DRY").is_ok() {
